@@ -36,6 +36,9 @@ func (m *Machine) unop(fr *frame, in *ssa.UnOp) Value {
 	x := fr.get(m, in.X)
 	switch in.Op {
 	case token.MUL: // load
+		if r, ok := x.(*SymRef); ok {
+			return m.loadRef(r)
+		}
 		p, ok := x.(*Value)
 		if !ok {
 			m.unsupported("load through %T", x)
@@ -374,15 +377,13 @@ func (m *Machine) indexAddr(fr *frame, in *ssa.IndexAddr) Value {
 	i := m.idx64(fr.get(m, in.Index), in.Index.Type())
 	switch xv := x.(type) {
 	case Slice:
-		k := m.checkIndex(i, len(xv.V), "slice")
-		return &xv.V[k]
+		return m.symIndexAddr(xv.V, i, "slice")
 	case *Value:
 		if xv == nil {
 			m.goPanic("nil pointer dereference (array index)")
 		}
 		arr := (*xv).(Array)
-		k := m.checkIndex(i, len(arr), "array")
-		return &arr[k]
+		return m.symIndexAddr(arr, i, "array")
 	}
 	m.unsupported("indexaddr on %T", x)
 	return nil
@@ -420,14 +421,55 @@ func (m *Machine) readIndexed(elems []Value, i *Term) Value {
 		}
 	}
 	if allScalar {
-		r := elems[n-1].(*Term)
-		for k := n - 2; k >= 0; k-- {
-			r = c.Ite(c.Eq(i, c.BV(uint64(k), 64)), elems[k].(*Term), r)
-		}
-		return r
+		return m.selectChain(elems, i, 0)
 	}
 	k := m.concretize(i, "index")
 	return copyVal(elems[k])
+}
+
+// selectChain builds elems[i] as an ite-chain restricted to the known range of i;
+// an index that is itself an ite is distributed first.
+func (m *Machine) selectChain(elems []Value, i *Term, d int) *Term {
+	c := m.ctx
+	n := len(elems)
+	if i.IsConst() {
+		return elems[i.C].(*Term)
+	}
+	if d == 0 {
+		m.selMemo = map[*Term]*Term{}
+	}
+	if r, ok := m.selMemo[i]; ok {
+		return r
+	}
+	if i.Op == OIte && d < 2000 {
+		r := c.Ite(i.Args[0], m.selectChain(elems, i.Args[1], d+1), m.selectChain(elems, i.Args[2], d+1))
+		m.selMemo[i] = r
+		return r
+	}
+	if i.Op == OZExt && i.Args[0].Op == OIte && d < 2000 {
+		x := i.Args[0]
+		r := c.Ite(x.Args[0], m.selectChain(elems, c.ZExt(x.Args[1], 64), d+1), m.selectChain(elems, c.ZExt(x.Args[2], 64), d+1))
+		m.selMemo[i] = r
+		return r
+	}
+	lo, hi := 0, n-1
+	m.refreshFacts()
+	if r, ok := m.rangeOf(i, 0); ok {
+		if r.lo < uint64(n) && int(r.lo) > lo {
+			lo = int(r.lo)
+		}
+		if r.hi < uint64(hi) {
+			hi = int(r.hi)
+		}
+	}
+	if lo > hi {
+		lo = hi
+	}
+	r := elems[hi].(*Term)
+	for k := hi - 1; k >= lo; k-- {
+		r = c.Ite(c.Eq(i, c.BV(uint64(k), 64)), elems[k].(*Term), r)
+	}
+	return r
 }
 
 func (m *Machine) strIndex(s Str, i *Term) Value {
@@ -567,6 +609,7 @@ func (m *Machine) allocObligation(n *Term, elemSize int64) {
 // cutLen bounds a *symbolic* allocation length to the stated exploration bound
 // (after the panic and allocation obligations have been decided for every value).
 func (m *Machine) cutLen(n *Term) {
+	n = m.rewrite(n)
 	if n.IsConst() || m.P.MaxSymLen <= 0 {
 		return
 	}
